@@ -153,6 +153,21 @@ func (g *Gen) mirroredThesCase() {
 			}
 		}
 	}
+	// the two merged, in both orders: each input contributes its own pairs, although the merge reads
+	// both through one recycled list and finds them at the same file offset
+	for _, order := range [][]string{{segs[0], segs[1]}, {segs[1], segs[0]}} {
+		for _, dr := range []string{"nil|nil", "0|nil", "nil|1"} {
+			mf := g.fresh("f")
+			g.emit("merge %s segs=%s drops=%s", mf, strList(order), dr)
+			m := g.fresh("m")
+			g.emit("open %s %s", m, mf)
+			g.emit("q thesterms %s thesA probe=-", m)
+			for _, t := range []string{"a", "b"} {
+				g.emit("q thes %s thesA %s ex=nil", m, hx([]byte(t)))
+			}
+			g.emit("close %s", m)
+		}
+	}
 	g.emit("cfg chunkmode=%d", g.curMode)
 	g.st("thes.mirrored")
 }
@@ -163,6 +178,11 @@ func (g *Gen) genC13(n int) error {
 	}
 	for i := 0; i < n; i++ {
 		g.emit("note case %d", i)
+		if i%60 == 3 {
+			g.mirroredThesCase()
+			g.st("case")
+			continue
+		}
 		depth := 1 + g.r.Intn(3)
 		g.genMergeCase(func(c *batchCfg) {
 			c.syn = true
@@ -877,11 +897,26 @@ func (g *Gen) genC20(n int) error {
 		g.alias(o3, se)
 		g.emit("ref addref %s", o2)
 		g.emit("merge %s segs=%s drops=%s", g.fresh("mf"), strList([]string{o1, o2, o3, s}[:2+g.r.Intn(3)]), "nil|nil|nil|nil")
+		// merges that fail (abandoned before they start, at their k-th report, out of file size): the
+		// inputs keep their references and everything they have loaded - thesauri included
+		g.emit("merge %s segs=%s,%s drops=nil|nil close=before", g.fresh("mf"), o1, o2)
+		g.emit("merge %s segs=%s,%s drops=nil|nil close=report:%d", g.fresh("mf"), o1, o2, 1+3*c)
+		g.emit("merge %s segs=%s,%s drops=nil|nil fsize=%d full=100000", g.fresh("mf"), o1, o2, 10+40*c)
 		for _, o := range []string{o1, o2, o3} {
 			g.emit("ref refs %s", o)
 			g.emit("ref mapped %s", o)
 			g.emit("q count %s", o)
 		}
+		for _, o := range []string{o1, o2} {
+			for _, th := range sortedFieldNames(g.univ[o].Thes) {
+				g.emit("q thesterms %s %s probe=-", o, th)
+				for _, t := range sortedKeys(g.univ[o].Thes[th]) {
+					g.emit("q thes %s %s %s ex=nil", o, th, hx([]byte(t)))
+				}
+			}
+			g.emit("q dict %s %s aut=all lo=* hi=* probe=-", o, sortedFieldNames(g.univ[o].Fields)[0])
+		}
+		g.emit("merge %s segs=%s,%s drops=nil|nil", g.fresh("mf"), o1, o2)
 		g.emit("ref decref %s", o2)
 		for _, o := range []string{o1, o2, o3} {
 			g.emit("ref close %s", o)
